@@ -101,6 +101,8 @@ deriving DecidableEq, Repr
 /-- what a handler writes: `writeFailureResponse(w, r, status, …)` -/
 inductive HttpEffect
   | fail (status : Nat)
+  /-- the handler got past the translated statements (what follows is outside the translation) -/
+  | reached
 deriving DecidableEq, Repr
 
 /-- externals of the cookie tail: `getAuthInfoFromAuthJWT` (signature, kind, issuer, audience, nbf — property C04) and
@@ -187,5 +189,10 @@ deriving DecidableEq, Repr
 structure AdminCacheExt where
   cacheGet : Str → Bool × Bool
   lookup : Str → Bool × Option Err
+
+/-- external of the gates of `certGenHandler`: `checkAuth(w, r, mask)` — the credential check of property C06, which
+writes its own failure response when it refuses -/
+structure CertgenExt where
+  checkAuth : Nat → authInfo × Option Err
 
 end KM.GoTypes
